@@ -182,6 +182,36 @@ macro_rules! fhe_backend {
                         }
                     }
                 }
+                // bit surgery on packed words: sext, splice_u8 / u16, get_bit, zero_byte
+                "surgery" => {
+                    let op = c["op"].as_str().unwrap();
+                    let (i0, i1) = (c["i0"].as_u64().unwrap_or(0) as usize, c["i1"].as_u64().unwrap_or(0) as usize);
+                    let pa = enc_packed(a, 5);
+                    let pb = enc_packed(b, 6);
+                    let r = guarded(|| {
+                        let mut scratch: ScratchOwned<BE> = ScratchOwned::alloc(1 << 23);
+                        let mut res: FheUint<Vec<u8>, u32> = FheUint::<Vec<u8>, u32>::alloc_from_infos(&glwe_infos);
+                        match op {
+                            "sext" => {
+                                res = enc_packed(a, 5);
+                                res.sext(module, i0, key, scratch.borrow());
+                            }
+                            "zero_byte" => {
+                                res = enc_packed(a, 5);
+                                res.zero_byte(module, i0, key, scratch.borrow());
+                            }
+                            "splice_u8" => res.splice_u8(module, i0, i1, &pa, &pb, key, scratch.borrow()),
+                            "splice_u16" => res.splice_u16(module, i0, i1, &pa, &pb, key, scratch.borrow()),
+                            "get_bit" => pa.get_bit_glwe(module, i0, &mut res, key, scratch.borrow()),
+                            other => panic!("harness: unknown surgery op {other}"),
+                        }
+                        dec(&res)
+                    });
+                    match r {
+                        Ok(v) => outs.push(json!({"out": bits(v), "panic": ""})),
+                        Err(p) => outs.push(json!({"out": [], "panic": p})),
+                    }
+                }
                 // several OS threads share the module, the prepared key and the read-only operands; each has its own scratch
                 "shared" => {
                     let ops: Vec<String> = c["ops"].as_array().unwrap().iter().map(|v| v.as_str().unwrap().to_string()).collect();
